@@ -1,5 +1,6 @@
+use std::collections::HashSet;
 use std::ops::ControlFlow;
-use std::sync::{Arc, RwLock};
+use std::sync::{Arc, Mutex, RwLock};
 
 use async_lsp::lsp_types::{
     notification, request, CompletionOptions, CompletionParams, CompletionResponse,
@@ -16,7 +17,7 @@ use futures::future::{ready, BoxFuture};
 use tokio::task::{self};
 
 use ide::analysis::{Analysis, AnalysisHost};
-use ide::file_system::FileSystem;
+use ide::file_system::{FileId, FileSystem};
 
 use crate::vfs::{UrlExt, Vfs};
 use crate::{from_proto, to_proto};
@@ -26,6 +27,8 @@ pub struct Server {
     vfs: Arc<RwLock<Vfs>>,
     client: ClientSocket,
     diagnostic_version: i32,
+    /// files for which diagnostics have been published and not cleared since
+    published_files: Arc<Mutex<HashSet<FileId>>>,
 }
 
 impl Server {
@@ -58,6 +61,7 @@ impl Server {
             vfs: Arc::new(RwLock::new(Vfs::new())),
             client,
             diagnostic_version: 0,
+            published_files: Arc::default(),
         }
     }
 }
@@ -314,8 +318,25 @@ impl Server {
     fn update_diagnostics(&mut self) {
         let diag_version = self.bump_diagnostic_version();
         let mut client = self.client.clone();
+        let published_files = Arc::clone(&self.published_files);
         self.spawn_with_snapshot((), move |snap, _| {
-            for (file_id, diagnostics) in snap.analysis.diagnostics() {
+            let mut all_diagnostics = snap.analysis.diagnostics();
+
+            // a file that has left the workspace keeps no stale entries: clear what was
+            // published for it
+            {
+                let mut published_files = published_files.lock().unwrap();
+                for file_id in published_files.iter() {
+                    all_diagnostics.entry(*file_id).or_default();
+                }
+                *published_files = all_diagnostics
+                    .iter()
+                    .filter(|(_, diagnostics)| !diagnostics.is_empty())
+                    .map(|(file_id, _)| *file_id)
+                    .collect();
+            }
+
+            for (file_id, diagnostics) in all_diagnostics {
                 let line_index = snap.analysis.line_index(file_id);
                 let lsp_diags = diagnostics
                     .into_iter()
